@@ -3,4 +3,4 @@ import broker
 
 
 def run(res, tier, seed, replay):
-    return broker.run_property(res, "C04", tier, seed, replay, ["C04", "C04sys"])
+    return broker.run_property(res, "C04", tier, seed, replay, ["C04", "C04sys", "C04float"])
